@@ -49,6 +49,8 @@ FIXED = [
  ("C11", "integrator caches are valid only for the grid", "re-building a Potential after changing its grid reused integrator caches keyed by symbol only"),
  ("C09", "size-one ndarray slice thickness", "slice_thickness given as a size-1 ndarray raised TypeError"),
  ("C08", "tiny-negative x/y", "atoms with tiny-negative x/y were wrapped to exactly the cell length and dropped"),
+ ("C01", "count only array blocks when sizing", "lazy run through a potential without ensemble axes (CrystalPotential) iterated the potential inside np.ndim and raised (follow-up of the packing fix)"),
+ ("C06 C01", "eager PRISM reduction keeps exit waves", "eager SMatrix.reduce/scan through an ensemble_mean potential averaged the complex exit waves of a WavesDetector; lazy and Probe.multislice keep one wave per configuration"),
  ("C08", "disk of finite projection integrals", "finite projection: potential disk one pixel too small for atoms not on a pixel centre"),
 ]
 log = subprocess.run(["git", "-C", "/repo", "log", "--format=%h %s"], capture_output=True, text=True).stdout.splitlines()
